@@ -445,7 +445,7 @@ var sparseFacet = harness.Register(&harness.Facet[histCase]{
 	Name:     "sparse-shrink-history",
 	Rule:     "rapid: an array of ≤ 3 elements and a history of 3–9 steps from {R[i]=v, defineProperty(R,i,{…, configurable mostly false}), R.length=n, delete R[i], push, pop, seal, defineProperty(R,'length',…)} with indices drawn independently from 0..40 (so elements are created in arbitrary, not ascending, order and the array stays sparse) and lengths from 0..41, half of the histories ending with a length assignment; every step compared with the lib/m08 model of 15.4.5.1 (shrinking deletes strictly from the highest index down and stops at the first non-configurable element) and the length invariant checked on otto's state alone; non-trivial = some step is not a plain set/get/has/push with a small index; distinct by the whole history",
 	Quick:    5000,
-	Thorough: 40000,
+	Thorough: 25000,
 	Gen:      genSparseHistory,
 	Check:    checkHistory,
 })
